@@ -52,6 +52,9 @@ DIRECTED = [
     # an activated flow that competes with its activator for the same event: it loses (restart pending) while the activator ends
     "flow fb\n  match E1()\n  send Out3()\n  match E2()\n\nflow fa\n  activate fb\n  match E1()\n  send Out1()\n\nflow main\n  start fa\n  match E3()\n  match Never()\n",
     "flow fb $p\n  match E1()\n  send Out3(v=$p)\n\nflow fa $p\n  activate fb(p=1)\n  activate fb(p=2)\n  match E1(p=1) or E2(p=1)\n  send Out1()\n\nflow main\n  start fa 1\n  match E3()\n  match Never()\n",
+    # a flow is stopped by another flow in the same processing in which it starts a child (the StartFlow is still pending)
+    "flow c\n  match E2()\n  send Out2()\n\nflow p\n  match E1()\n  start c\n  match E3()\n\nflow k\n  match E1()\n  send StopFlow(flow_id=\"p\")\n  match E3()\n\nflow main\n  start k\n  start p\n  match Never()\n",
+    "flow c\n  match E2()\n  send Out2()\n\nflow p\n  match E1()\n  activate c\n  match E3()\n\nflow k\n  match E1()\n  send FinishFlow(flow_id=\"p\")\n  match E3()\n\nflow main\n  start k\n  start p\n  match Never()\n",
     "flow c\n  match E1()\n\nflow p\n  start c\n  match E2()\n\nflow main\n  start p as $p\n  match $p.Finished()\n  send Out1()\n  start p\n  match E3()\n  send Out2()\n  match Never()\n",
 ]
 
